@@ -141,6 +141,27 @@ Proof.
 Qed.
 Print Assumptions no_ionic_strength_error_implies_balance_partial.
 
+(* ---- T-gen: redox couples in write_mass_action_eqn_x -------------------------------------------------------------
+   A secondary master species M flagged REWRITE that occurs with stoichiometric coefficient c in a reaction is replaced
+   by c times its rxn_secondary; if that reaction contains ce electrons, the e- are replaced by the element's redox-couple
+   reaction (pe_x[pe_rxn]).  In the rewriting model this is the nested substitution  fscale c (... fscale ce f_couple),
+   whose value is (c * ce) times the couple reaction; every couple trxn_add in the code must use exactly that multiplier
+   (operands: the token's coefficient and coef_e = rxn_find_coef(rxn_secondary, "e-"), nothing else). *)
+Theorem redox_couple_multiplier :
+  Forall (fun e => forall c ce, evalR (env_of [c; ce]) e = c * ce) wma_couple_mults /\
+  (forall c ce, evalR (env_of [c; ce]) wma_secondary_mult = c) /\
+  wma_secondary_mult_vars = ["trxn.token[i].coef"; "coef_e"] /\
+  wma_coef_e_source = "rxn_find_coef(trxn.token[i].s->secondary->rxn_secondary, ""e-"")" /\
+  (forall (c ce : Q) f la K, evalF (fscale c (fscale ce f)) la K = (Q2R c * Q2R ce) * evalF f la K).
+Proof.
+  split; [unfold wma_couple_mults; repeat constructor; intros c ce;
+          match goal with |- evalR _ ?e = _ => unfold e end; unfold_evalR; lra|].
+  split; [intros; unfold wma_secondary_mult; unfold_evalR; reflexivity|].
+  repeat split; try reflexivity.
+  intros. rewrite !evalF_scale. ring.
+Qed.
+Print Assumptions redox_couple_multiplier.
+
 (* ---- model: rewriting of reactions to master species (any database size, any substitution depth) ----------- *)
 
 Theorem rewrite_preserves_equilibrium : forall is_stop rxn fuel (la K : sid -> R),
